@@ -11,7 +11,9 @@ SPEC = {
     "jobs": [Job("chain", "verifsim", "^TestVerifC04$", shards=(8, 16), timeout=(900, 3600))],
     "floors": {"twin_sequences_failed_midway_then_succeeded": 200, "ledger_checks": (1500, 20000), "twins": (300, 4000), "epochs_finished": (4, 40), "twins_forced_past_pool": (20, 200),
                "twin_type:Send": 50, "twin_type:Kill": 2, "twin_type:KillDelegator": 1, "twin_type:Deploy": 3, "twin_type:Call": 3,
-               "twin_type:ReplenishStake": 3, "twin_type:Invite": 3, "twin_type:Burn": 3, "epoch_payout_ratio>=97%": 5},
+               "twin_type:ReplenishStake": 3, "twin_type:Invite": 3, "twin_type:Burn": 3, "epoch_payout_ratio>=97%": 5,
+               "drain_then_contract_sequences": 600, "drain_then_contract_txs_in_block:1": 300, "blocks_in_network_without_validated_identities": 200,
+               "contract_txs_in_network_without_validated_identities": 4},
     "parallel": 16,
     "assumptions": ["consensus config V12", "epoch results come from the synthetic epoch function (arbitrary well-formed results)"],
 }
